@@ -3,7 +3,7 @@
    soundness theorems need of their inputs — so those theorems compose along the whole program. *)
 From DR Require Import Model.Reach Proofs.PredLaws Proofs.SliceLaws Proofs.SortLaws Proofs.SemLaws
   Proofs.Metadata Proofs.Simplify Proofs.FinishApply Proofs.CommuteLaws Proofs.SqlRules Proofs.BuildLaws
-  Proofs.ReachLaws Proofs.EqbLaws Proofs.BacktrackLaws Proofs.SqlBinary Proofs.SqlBuild Proofs.MultiIter.
+  Proofs.ReachLaws Proofs.EqbLaws Proofs.EqbRefl Proofs.BacktrackLaws Proofs.SqlBinary Proofs.SqlBuild Proofs.MultiIter.
 From Coq Require Import Lia.
 Local Open Scope Z_scope.
 
@@ -183,6 +183,90 @@ Proof.
   assert (Ho2 : o' = Ident ∨ op_wf o' (columns res)).
   { destruct P3 as [->|(cs & -> & Hcs)]; [exact B1|right; exact Hcs]. }
   destruct (append_unary_e_shape env o' res t1 Hsr R1 R2 Ho2 H) as [S E]. split; [exact S|congruence].
+Qed.
+
+(* ---- a backtracking attempt that does not complete leaves the tree as it was (anything but a projection) ---- *)
+Lemma backtrack_unchanged : ∀ t o pref t',
+  is_proj o = false → backtrack (RUn o) t pref = Ok (t', false) → t' = t.
+Proof.
+  induction t as [n e cs mn mx|cur t1 IH|b l _ r _|n t1 _|dd t1 IH|sl sk _ t1 _];
+    intros o pref t' Hnp H; cbn [backtrack is_locked] in H.
+  - injection H as <-. reflexivity.
+  - set (c := commute (RUn o) cur (columns t1)) in *.
+    destruct (c_first c) as [f|] eqn:Ef; [|injection H as <- _; reflexivity].
+    destruct (commute_first_un o cur (columns t1) f Ef) as (o1 & -> & Hp1 & _).
+    assert (Hdone : c_done c = true).
+    { destruct (c_done c) eqn:Ed; [reflexivity|].
+      destruct (commute_partial_shape o cur (columns t1) _ Ef Ed) as (cs & -> & _). discriminate. }
+    destruct (backtrack (RUn o1) t1 pref) as [[up d1]|] eqn:Eb; cbn [rbind] in H; [|discriminate].
+    match type of H with rbind ?x _ = _ => destruct x as [res|] eqn:Er end; cbn [rbind] in H; [|discriminate].
+    injection H as <- Hd. rewrite Hdone, andb_true_r in Hd. subst d1.
+    assert (up = t1) by (apply (IH o1 pref up); [congruence|exact Eb]). subst up.
+    rewrite tree_eqb_refl in Er. injection Er as <-. reflexivity.
+  - injection H as <-. reflexivity.
+  - injection H as <-. reflexivity.
+  - destruct (engine_eqb (engine_of t1) pref).
+    + destruct (apply_with _ (RUn o) t1 default_opts); cbn [rbind] in H; discriminate.
+    + destruct (ekind_of (engine_of t1)).
+      * destruct (backtrack (RUn o) t1 pref) as [[up d1]|] eqn:Eb; cbn [rbind] in H; [|discriminate].
+        injection H as <- ->. f_equal. apply (IH o pref up Hnp Eb).
+      * injection H as <-. reflexivity.
+  - discriminate.
+Qed.
+
+(* ---- UnaryOperation.apply with transfer=True (not a projection; the transfer undoes no earlier one) ---- *)
+Lemma apply_full_shape_transfer env o t op pr t1 :
+  wf_tree t → env_ok env t → shape_ok env t → op_wf o (columns t) → is_proj o = false →
+  o_pref op = Some pr → o_transfer op = true → xfer_simplify pr t = None →
+  (ekind_of pr = KSql → o_backtrack op = false ∨ ekind_of (engine_of t) = KSql) →
+  apply_full (RUn o) t op = Ok t1 → shape_ok env t1.
+Proof.
+  intros Hwf Henv Hs Ho Hnp Hpref Htr Hx Hsc H.
+  pose proof (sem_tree_dom env t Hwf Henv) as Hdom.
+  unfold apply_full, apply_with, req_begin in H.
+  destruct (begin_apply o (columns t)) as [o'|e] eqn:Eb; cbn [rbind] in H; [|discriminate].
+  destruct (begin_apply_sound o (columns t) o' (sem_tree env t) (or_intror Ho) Hdom Eb) as (B1 & B2 & B3).
+  assert (Hnp' : is_proj o' = false).
+  { assert (Hc : match o with Calc _ e => cols_e e ≠ ∅ | Slice a b => slice_ok a b | Ident => False | _ => True end)
+      by (destruct o; simpl in *; tauto).
+    destruct (begin_apply_wf o (columns t) o' Hc Eb) as [[-> _]|[-> _]]; auto. }
+  set (p := match o' with Ident => engine_of t | _ => default (engine_of t) (o_pref op) end).
+  assert (Em : (match o' with Ident => Ok (RUn Ident, engine_of t) | _ => Ok (RUn o', default (engine_of t) (o_pref op)) end)
+               = Ok (RUn o', p)) by (destruct o'; reflexivity).
+  rewrite Em in H. cbn [rbind] in H. clear Em.
+  destruct (engine_eqb p (engine_of t)) eqn:Ep.
+  { apply (append_unary_e_shape env o' t t1 Hs Hwf Henv B1 H). }
+  assert (Hp : p = pr).
+  { subst p. rewrite Hpref. destruct o'; try reflexivity. rewrite engine_eqb_refl in Ep. discriminate. }
+  assert (Hbt : ∃ res done,
+            (if o_backtrack op then backtrack_e (RUn o') t p else Ok (t, false)) = Ok (res, done) ∧
+            shape_ok env res ∧ (done = false → res = t)).
+  { destruct (o_backtrack op).
+    - unfold backtrack_e in *. destruct (ekind_of (engine_of t)) eqn:Ek.
+      + destruct (backtrack (RUn o') t p) as [[res done]|e] eqn:Ebk; cbn [rbind] in H; [|discriminate].
+        exists res, done. split; [reflexivity|].
+        split; [apply (backtrack_shape env t o' p res done); auto; intros; congruence|].
+        intros ->. apply (backtrack_unchanged t o' p res Hnp' Ebk).
+      + exists t, false. auto.
+    - exists t, false. auto. }
+  destruct Hbt as (res & done & Ebd & Sr & Hsame). rewrite Ebd in H. cbn [rbind] in H.
+  destruct done; [injection H as <-; exact Sr|].
+  rewrite (Hsame eq_refl) in *. rewrite Htr in H.
+  destruct (transfer_e p t) as [res2|e] eqn:Et; cbn [rbind] in H; [|discriminate].
+  assert (Hxx : ekind_of p = KSql → ∀ x, xfer_simplify p t = Some x → good_all env x) by (rewrite Hp; intros _ x Hq; congruence).
+  destruct (transfer_e_sound env p t res2 Hwf Henv (shape_tree_ok env t Hs) Hxx Et) as (T1 & T2 & T3 & T4 & T5 & T6).
+  assert (S2 : shape_ok env res2).
+  { destruct (ekind_of p) eqn:Ekp.
+    - unfold transfer_e in Et. rewrite Ekp in Et. unfold transfer_generic in Et.
+      assert (Ee : engine_eqb (engine_of t) p = false).
+      { destruct (engine_eqb (engine_of t) p) eqn:E; [|reflexivity]. apply engine_eqb_eq in E. rewrite E, engine_eqb_refl in Ep. discriminate. }
+      rewrite Ee in Et. rewrite Hp in Et. rewrite Hx in Et. cbn [default from_option id] in Et. rewrite <- Hp in Et. rewrite Ee in Et.
+      assert (Hc : conform_e t = Ok t).
+      { unfold conform_e. pose proof (shape_kind env t Hs) as G. destruct (ekind_of (engine_of t)); auto. eapply good_all_conform; eauto. }
+      rewrite Hc in Et. cbn [rbind] in Et. injection Et as <-. simpl. auto.
+    - apply shape_of_good; [rewrite T6; exact Ekp|]. unfold tree_ok in T5. rewrite T6, Ekp in T5. exact T5. }
+  assert (Ho2 : o' = Ident ∨ op_wf o' (columns res2)) by (rewrite T2; exact B1).
+  apply (append_unary_e_shape env o' res2 t1 S2 T3 T4 Ho2 H).
 Qed.
 
 (* ---- joins of two relations that live in one engine ---- *)
@@ -367,27 +451,34 @@ Proof.
 Qed.
 
 (* ---- whole programs ---- *)
-Fixpoint mprog_engine (p : mprog) : engine :=
-  match p with
-  | MpLeaf _ e _ _ _ => e
-  | MpUn _ _ p' | MpItem _ _ _ p' | MpMat _ p' => mprog_engine p'
-  | MpChain l _ | MpJoin _ _ _ l _ => mprog_engine l
-  | MpXfer d _ => d
-  end.
-
 Section MixedPrograms.
   Variable env : lenv.
 
   Definition mbuilt (p : mprog) (t : tree) : Prop :=
-    sem_tree env t = spec_mprog env p ∧ wf_tree t ∧ env_ok env t ∧ columns t = mprog_cols p ∧
-    shape_ok env t ∧ engine_of t = mprog_engine p.
+    sem_tree env t = spec_mprog env p ∧ wf_tree t ∧ env_ok env t ∧ columns t = mprog_cols p ∧ shape_ok env t.
 
-  (* Programs over engines of both kinds.  Scope (everything outside it is covered call by call by
-     apply_full_sound / apply_full_join_sound / transfer_e_sound, whose preconditions this theorem establishes):
-     - a unary call with a preferred engine is not a projection (finding F2) and does not ask for a transfer;
-     - the operands of a join have columns and are in one engine, or the target is in an iteration engine and no
-       transfer is asked for (the join is then inserted upstream by backtracking, or the call is refused);
-     - an explicit transfer does not undo an earlier transfer (there-and-back is C15's theorem). *)
+  (* what a unary call with a preferred engine needs of the relation it is applied to *)
+  Definition unary_scope (o : uop) (op : opts) (t0 : tree) : Prop :=
+    match o_pref op with
+    | None => True
+    | Some pr =>
+        if o_transfer op
+        then (* transfer=True: not a projection, the transfer undoes no earlier one, and (SQL destination) either no
+                backtracking is attempted or the relation is already in an SQL engine *)
+             is_proj o = false ∧ xfer_simplify pr t0 = None ∧
+             (ekind_of pr = KSql → o_backtrack op = false ∨ ekind_of (engine_of t0) = KSql)
+        else (* finding F2: a projection is not moved past a deduplication *)
+             is_proj o = true → spine_no_dedup t0
+    end.
+
+  (* what Relation.join needs of its operands *)
+  Definition join_scope (jt : bool) (tl tr : tree) : Prop :=
+    engine_of tr = engine_of tl ∨
+    (jt = false ∧ kiter tl ∧ spine_cons env (natural_common (columns tl) (columns tr)) (sem_tree env tr) tl).
+
+  (* Programs over engines of both kinds.  The side conditions speak about the relation a call is applied to (the tree
+     the sub-program builds); everything outside them is covered call by call by apply_full_sound /
+     apply_full_join_sound / transfer_e_sound, whose preconditions this theorem establishes. *)
   Fixpoint mixprog_ok (p : mprog) : Prop :=
     match p with
     | MpLeaf n e cs mn mx =>
@@ -395,28 +486,22 @@ Section MixedPrograms.
         match mx with Some m => Z.of_nat (length (env n)) <= m | None => True end
     | MpUn o op p' =>
         (match o with Sel q => cols_p q ⊆ mprog_cols p' | Ident => False | _ => True end) ∧
-        (match o_pref op with None => True | Some pr => is_proj o = false ∧ o_transfer op = false end) ∧
-        mixprog_ok p'
+        mixprog_ok p' ∧ ∀ t0, build_multi p' = Ok t0 → unary_scope o op t0
     | MpItem _ _ _ p' | MpMat _ p' => mixprog_ok p'
     | MpChain l r => mixprog_ok l ∧ mixprog_ok r
     | MpJoin _ _ jt l r =>
         mprog_cols l ≠ ∅ ∧ mprog_cols r ≠ ∅ ∧ mixprog_ok l ∧ mixprog_ok r ∧
-        (mprog_engine l = mprog_engine r ∨
-         (* across engines: the target in an iteration engine, no transfer, and the ColumnTag contract at the levels
-            the join may be moved to *)
-         (jt = false ∧ ekind_of (mprog_engine l) = KIter ∧
-          ∀ tl tr, build_multi l = Ok tl → build_multi r = Ok tr →
-                   spine_cons env (natural_common (columns tl) (columns tr)) (sem_tree env tr) tl))
+        ∀ tl tr, build_multi l = Ok tl → build_multi r = Ok tr → join_scope jt tl tr
     | MpXfer d p' => mixprog_ok p' ∧ ∀ t0, build_multi p' = Ok t0 → xfer_simplify d t0 = None
     end.
 
   Lemma mixed_unary_step o o' op t t1 :
     wf_tree t → env_ok env t → shape_ok env t →
     (match o with Sel q => cols_p q ⊆ columns t | Ident => False | _ => True end) →
-    (match o_pref op with None => True | Some pr => is_proj o = false ∧ o_transfer op = false end) →
+    unary_scope o op t →
     construct o = Ok o' → apply_full (RUn o') t op = Ok t1 →
     sem_tree env t1 = sem_op o (sem_tree env t) ∧ wf_tree t1 ∧ env_ok env t1 ∧
-    columns t1 = op_columns o (columns t) ∧ shape_ok env t1 ∧ engine_of t1 = engine_of t.
+    columns t1 = op_columns o (columns t) ∧ shape_ok env t1.
   Proof.
     intros W E Hs Hsel Hpref Hc Ha.
     pose proof (sem_tree_dom env t W E) as Hdom.
@@ -426,15 +511,25 @@ Section MixedPrograms.
     destruct (begin_apply_wf o' (columns t) o2 S3 Eb) as [[-> Hid]|[-> Hw]].
     - rewrite (apply_noop o' t op (shape_api env t Hs) Eb) in Ha. injection Ha as <-.
       destruct (Hid _ Hdom S4) as [I1 I2]. rewrite <- S1, <- S2, I1, I2. auto 10.
-    - destruct (o_pref op) as [pr|] eqn:Epr.
-      + destruct Hpref as [Hnp Htr].
-        assert (Hnd : is_proj o' = true → spine_no_dedup t).
-        { intros Hp. rewrite (construct_is_proj o o' Hc) in Hp. congruence. }
-        assert (Hscope : transfer_in_scope env t op) by (intros Ht; congruence).
-        destruct (apply_full_sound env o' t op t1 W E (shape_spine env t Hs) (shape_tree_ok env t Hs) Hw Hnd Hscope Ha)
-          as (A1 & A2 & A3 & A4 & _).
-        destruct (apply_full_shape env o' t op t1 W E Hs Hw Hnd Htr Ha) as [A5 A6].
-        rewrite <- S1, <- S2. auto 10.
+    - unfold unary_scope in Hpref. destruct (o_pref op) as [pr|] eqn:Epr.
+      + destruct (o_transfer op) eqn:Etr.
+        * destruct Hpref as (Hnp & Hx & Hsc).
+          assert (Hnp' : is_proj o' = false) by (rewrite (construct_is_proj o o' Hc); exact Hnp).
+          assert (Hnd : is_proj o' = true → spine_no_dedup t) by (intros Hp; congruence).
+          assert (Hscope : transfer_in_scope env t op).
+          { intros _ pref Hpref' Hsql. rewrite Epr in Hpref'. injection Hpref' as <-.
+            split; [apply Hsc; exact Hsql|]. intros x Hxx. congruence. }
+          destruct (apply_full_sound env o' t op t1 W E (shape_spine env t Hs) (shape_tree_ok env t Hs) Hw Hnd Hscope Ha)
+            as (A1 & A2 & A3 & A4 & _).
+          pose proof (apply_full_shape_transfer env o' t op pr t1 W E Hs Hw Hnp' Epr Etr Hx Hsc Ha) as A5.
+          rewrite <- S1, <- S2. auto 10.
+        * assert (Hnd : is_proj o' = true → spine_no_dedup t).
+          { intros Hp. rewrite (construct_is_proj o o' Hc) in Hp. auto. }
+          assert (Hscope : transfer_in_scope env t op) by (intros Ht; congruence).
+          destruct (apply_full_sound env o' t op t1 W E (shape_spine env t Hs) (shape_tree_ok env t Hs) Hw Hnd Hscope Ha)
+            as (A1 & A2 & A3 & A4 & _).
+          destruct (apply_full_shape env o' t op t1 W E Hs Hw Hnd Etr Ha) as [A5 _].
+          rewrite <- S1, <- S2. auto 10.
       + rewrite apply_full_nopref in Ha by auto. rewrite Eb in Ha. cbn [rbind] in Ha.
         destruct (append_unary_e_sound env o' t t1 (shape_tree_ok env t Hs) W E (or_intror Hw) Ha) as [(F1 & F2 & F3 & F4 & F5) _].
         destruct (append_unary_e_shape env o' t t1 Hs W E (or_intror Hw) Ha) as [F6 _].
@@ -457,28 +552,28 @@ Section MixedPrograms.
       + injection H as <-. unfold mbuilt. simpl. auto 10.
       + destruct (select_of_good env _ t W E I H) as (S1 & S2 & S3 & S4).
         destruct (good_all_wf env t S1) as [W1 E1].
-        unfold mbuilt. cbn [spec_mprog mprog_cols mprog_engine]. simpl in S2, S3, S4.
+        unfold mbuilt. cbn [spec_mprog mprog_cols]. simpl in S2, S3, S4.
         repeat split; auto. apply shape_of_good; [rewrite S4; exact Ek|exact S1].
     - (* unary factory call *)
-      destruct Hok as (Hsel & Hpref & Hok).
+      destruct Hok as (Hsel & Hok & Hsc).
       destruct (build_multi p) as [t0|] eqn:Eb; cbn [rbind] in H; [|discriminate].
-      destruct (IH t0 Hok eq_refl) as (S & W & E & C & Sh & En).
+      destruct (IH t0 Hok eq_refl) as (S & W & E & C & Sh).
       destruct (construct o) as [o'|] eqn:Ec; cbn [rbind] in H; [|discriminate].
       assert (Hsel' : match o with Sel q => cols_p q ⊆ columns t0 | Ident => False | _ => True end) by (rewrite C; exact Hsel).
-      destruct (mixed_unary_step o o' op t0 t W E Sh Hsel' Hpref Ec H) as (S1 & W1 & E1 & C1 & Sh1 & En1).
-      unfold mbuilt. simpl. rewrite S1, S, C1, C, En1, En. auto 10.
+      destruct (mixed_unary_step o o' op t0 t W E Sh Hsel' (Hsc t0 eq_refl) Ec H) as (S1 & W1 & E1 & C1 & Sh1).
+      unfold mbuilt. simpl. rewrite S1, S, C1, C. auto 10.
     - (* __getitem__ *)
       destruct (build_multi p) as [t0|] eqn:Eb; cbn [rbind] in H; [|discriminate].
-      destruct (IH t0 Hok eq_refl) as (S & W & E & C & Sh & En).
+      destruct (IH t0 Hok eq_refl) as (S & W & E & C & Sh).
       destruct (negb (bool_decide (st = None) || bool_decide (st = Some 1))); [discriminate|].
       destruct (construct (Slice (default 0 a) b)) as [o'|] eqn:Ec; cbn [rbind] in H; [|discriminate].
-      destruct (mixed_unary_step (Slice (default 0 a) b) o' default_opts t0 t W E Sh I I Ec H) as (S1 & W1 & E1 & C1 & Sh1 & En1).
-      unfold mbuilt. simpl. rewrite S1, S, C1, C, En1, En. auto 10.
+      destruct (mixed_unary_step (Slice (default 0 a) b) o' default_opts t0 t W E Sh I I Ec H) as (S1 & W1 & E1 & C1 & Sh1).
+      unfold mbuilt. simpl. rewrite S1, S, C1, C. auto 10.
     - (* chain *)
       destruct Hok as [Hl Hr].
       destruct (build_multi l) as [tl|] eqn:El; cbn [rbind] in H; [|discriminate].
       destruct (build_multi r) as [tr|] eqn:Er; cbn [rbind] in H; [|discriminate].
-      destruct (IHl tl Hl eq_refl) as (Sl & Wl & El0 & Cl & Shl & Enl). destruct (IHr tr Hr eq_refl) as (Sr & Wr & Er0 & Cr & Shr & Enr).
+      destruct (IHl tl Hl eq_refl) as (Sl & Wl & El0 & Cl & Shl). destruct (IHr tr Hr eq_refl) as (Sr & Wr & Er0 & Cr & Shr).
       unfold chain_apply_e in H.
       destruct (engine_eqb (engine_of tl) (engine_of tr)) eqn:Ee; cbn [negb] in H; [|discriminate].
       destruct (bool_decide (columns tl = columns tr)) eqn:Ecs; cbn [negb] in H; [|discriminate].
@@ -491,26 +586,24 @@ Section MixedPrograms.
         unfold append_binary_sel in H.
         destruct (append_chain_sound env (conform_n (Nat.pred reconform_depth)) tl tr t Gl Gr Ecs) as (G & S & C & E); [exact Ee|exact H|].
         destruct (good_all_wf env t G) as [W1 E1].
-        unfold mbuilt. simpl. rewrite S, Sl, Sr, C, Cl, E, Enl. repeat split; auto.
+        unfold mbuilt. simpl. rewrite S, Sl, Sr, C, Cl. repeat split; auto.
         apply shape_of_good; [rewrite E; exact Ek|exact G].
-    - (* join of two relations in one engine *)
-      destruct Hok as (Nl & Nr & Hl & Hr & Heng).
+    - (* join *)
+      destruct Hok as (Nl & Nr & Hl & Hr & Hjs).
       destruct (build_multi l) as [tl|] eqn:El; cbn [rbind] in H; [|discriminate].
       destruct (build_multi r) as [tr|] eqn:Er; cbn [rbind] in H; [|discriminate].
-      destruct (IHl tl Hl eq_refl) as (Sl & Wl & El0 & Cl & Shl & Enl). destruct (IHr tr Hr eq_refl) as (Sr & Wr & Er0 & Cr & Shr & Enr).
+      destruct (IHl tl Hl eq_refl) as (Sl & Wl & El0 & Cl & Shl). destruct (IHr tr Hr eq_refl) as (Sr & Wr & Er0 & Cr & Shr).
       assert (Ntl : columns tl ≠ ∅) by (rewrite Cl; exact Nl). assert (Ntr : columns tr ≠ ∅) by (rewrite Cr; exact Nr).
       assert (Hres : sem_tree env t = sem_join (natural_common (columns tl) (columns tr)) (default (PLit true) pr) (sem_tree env tl) (sem_tree env tr) ∧
                      columns t = columns tl ∪ columns tr ∧ wf_tree t ∧ env_ok env t ∧ shape_ok env t ∧ engine_of t = engine_of tl).
-      { destruct Heng as [Heng|(-> & Hk & Hcons)].
-        - assert (He : engine_of tr = engine_of tl) by congruence.
-          apply (same_engine_join env (default (PLit true) pr) tr tl jb jt t); auto.
-        - apply (cross_engine_join env (default (PLit true) pr) tr tl jb t); auto.
-          unfold kiter. rewrite Enl. exact Hk. }
+      { destruct (Hjs tl tr eq_refl eq_refl) as [He|(-> & Hk & Hcons)].
+        - apply (same_engine_join env (default (PLit true) pr) tr tl jb jt t); auto.
+        - apply (cross_engine_join env (default (PLit true) pr) tr tl jb t); auto. }
       destruct Hres as (S1 & S2 & S3 & S4 & S5 & S6).
-      unfold mbuilt. simpl. rewrite S1, S2, S6, Sl, Sr, Cl, Cr, Enl. auto 10.
+      unfold mbuilt. simpl. rewrite S1, S2, Sl, Sr, Cl, Cr. auto 10.
     - (* materialization *)
       destruct (build_multi p) as [t0|] eqn:Eb; cbn [rbind] in H; [|discriminate].
-      destruct (IH t0 Hok eq_refl) as (S & W & E & C & Sh & En).
+      destruct (IH t0 Hok eq_refl) as (S & W & E & C & Sh).
       unfold materialize_e in H. destruct (ekind_of (engine_of t0)) eqn:Ek.
       + injection H as <-. unfold materialize_generic. destruct (mat_simplify t0); unfold mbuilt, kiter; simpl; auto 10.
       + pose proof (shape_kind env t0 Sh) as G. rewrite Ek in G.
@@ -521,19 +614,20 @@ Section MixedPrograms.
         * change (conform (Mat n t0)) with (select_of (Mat n t0)) in H.
           destruct (select_of_good env (Mat n t0) t W E I H) as (S1 & S2 & S3 & S4).
           destruct (good_all_wf env t S1) as [W1 E1]. simpl in S2, S3, S4.
-          unfold mbuilt. simpl. rewrite S2, S3, S4. repeat split; auto.
+          unfold mbuilt. simpl. rewrite S2, S3. repeat split; auto.
           apply shape_of_good; [rewrite S4; exact Ek|exact S1].
     - (* transfer *)
       destruct Hok as [Hok Hnr].
       destruct (build_multi p) as [t0|] eqn:Eb; cbn [rbind] in H; [|discriminate].
-      destruct (IH t0 Hok eq_refl) as (S & W & E & C & Sh & En).
+      destruct (IH t0 Hok eq_refl) as (S & W & E & C & Sh).
       pose proof (Hnr t0 eq_refl) as Hx0.
       assert (Hx : ekind_of d = KSql → ∀ x, xfer_simplify d t0 = Some x → good_all env x) by (intros _ x Hxx; congruence).
       destruct (transfer_e_sound env d t0 t W E (shape_tree_ok env t0 Sh) Hx H) as (T1 & T2 & T3 & T4 & T5 & T6).
       unfold mbuilt. simpl. rewrite T1, T2. repeat split; auto.
       destruct (ekind_of d) eqn:Ekd.
-      + (* into an iteration engine: the relation itself, or a new transfer node *)
-        unfold transfer_e in H. rewrite Ekd in H. unfold transfer_generic in H. rewrite Hx0 in H. cbn [default from_option id] in H.
+      + unfold transfer_e in H. rewrite Ekd in H. unfold transfer_generic in H.
+        destruct (engine_eqb (engine_of t0) d); [injection H as <-; exact Sh|].
+        rewrite Hx0 in H. cbn [default from_option id] in H.
         destruct (engine_eqb (engine_of t0) d); [injection H as <-; exact Sh|].
         assert (Hc : conform_e t0 = Ok t0).
         { unfold conform_e. pose proof (shape_kind env t0 Sh) as G. destruct (ekind_of (engine_of t0)); auto. eapply good_all_conform; eauto. }
